@@ -1,5 +1,6 @@
 import HpxVerif.Lemmas.PolyLemmas
 import HpxVerif.Props.C15
+import HpxVerif.Lemmas.EllipseReal
 
 /-!
 # C13 — elliptical-cone coverage: centre kept, circular case sound, tight, guarded
@@ -19,8 +20,9 @@ Proved, for **every numeric instance and whatever the floating-point tests answe
   start and target; with strictly increasing start cells the whole list is well formed and is exactly the concatenation;
 * `internal_allsky_start`: with no starting depth (large `a`) the internal list *is* the fold over the 12 base cells;
 * `custom_pack_fixpoint`: the entries returned for `delta_depth = 0` are a fixed point of the compaction pass.
-Over the reals (`Lemmas/EllipseReal.lean`, quoted in `Props/C13R.lean`): the covariance-form test *is* the canonical
-ellipse inequality, and for `a = b` the membership test *is* the cone membership `angular distance ≤ a`.
+Over the reals (the same model functions at `α := ℝ`; `ellipse_test_is_ellipse`, `circular_is_cone`): the covariance-form
+test *is* the canonical ellipse inequality with semi-axes `a, b` and major axis along the given unit vector, and for
+`a = b` the membership test *is* the cone membership `cos a ≤ cos(angular distance)`, for every position angle.
 Left to the oracle: the centre cell is kept (needs `overlap_cone` to be sound w.r.t. the empirical cell-size bounds of
 C16), tightness, circular no-miss (witness points), findings F7 (debug assertions of the cell-size helper).
 -/
@@ -175,5 +177,23 @@ theorem custom_pack_fixpoint (cfg : Cfg) (depth : Nat) (lon lat a b pa : α) (m 
   · simp only [beq_self_eq_true, if_true, Option.map_eq_some_iff] at h
     obtain ⟨cells, _, rfl⟩ := h
     exact ⟨rfl, C15.pack_fixpoint depth _⟩
+
+/-- over ℝ: `Ellipse.contains ∘ Ellipse.fromOriented` is the canonical ellipse inequality -/
+theorem ellipse_test_is_ellipse (a b s c x y : ℝ) (ha : a ≠ 0) (hb : b ≠ 0) (hsc : s * s + c * c = 1) :
+    (Ellipse.fromOriented (α := ℝ) a b s c).contains x y = true ↔
+      ((x * c + y * s) / a) ^ 2 + ((x * s - y * c) / b) ^ 2 ≤ 1 :=
+  ellipse_contains_real a b s c x y ha hb hsc
+
+/-- over ℝ: for `a = b` the elliptical cone is the cone of radius `a`, whatever the position angle -/
+theorem circular_is_cone (lon lat a pa l φ : ℝ) (hlon : 0 ≤ lon ∧ lon < 2 * Real.pi)
+    (hlat : -(Real.pi / 2) ≤ lat ∧ lat ≤ Real.pi / 2) (ha : 0 < a ∧ a < Real.pi / 2) :
+    (ECone.new (α := ℝ) lon lat a a pa).contains l φ = true ↔
+      Real.cos a ≤ Real.sin lat * Real.sin φ + Real.cos lat * Real.cos φ * Real.cos (l - lon) :=
+  econe_contains_circular lon lat a pa l φ hlon hlat ha
+
+/-- the hypotheses are satisfiable -/
+example : (0 : ℝ) ≤ 1 ∧ (1 : ℝ) < 2 * Real.pi ∧ -(Real.pi / 2) ≤ (0 : ℝ) ∧ (0 : ℝ) ≤ Real.pi / 2 ∧ (0 : ℝ) < 1 / 2 ∧ (1 / 2 : ℝ) < Real.pi / 2 := by
+  have := Real.two_le_pi
+  refine ⟨by norm_num, by linarith, by linarith, by linarith, by norm_num, by linarith⟩
 
 end Hpx.C13
